@@ -10,6 +10,10 @@ use std::sync::atomic::{AtomicI64 as StdAtomicI64, AtomicU64 as StdAtomicU64, Or
 use crate::verif_sync::{AtomicI64 as StdAtomicI64, AtomicU64 as StdAtomicU64};
 #[cfg(prometheus_verif)]
 use std::sync::atomic::Ordering;
+// Whatever else this file may come to use from std::sync::atomic resolves under the verification cfg too.
+#[cfg(prometheus_verif)]
+#[allow(unused_imports)]
+use std::sync::atomic::*;
 
 /// An interface for numbers. Used to generically model float metrics and integer metrics, i.e.
 /// [`Counter`](crate::Counter) and [`IntCounter`](crate::Counter).
